@@ -635,6 +635,11 @@ func c08RunRandom(scratch, sid string, seed uint64, length int) []string {
 // ---- (b) crash points ----
 
 func (q *c08Seq) crashOp(point string, nth int, kind string, b bpv7.Bundle) {
+	q.crashOpRec(point, nth, kind, b, "")
+}
+
+// crashOpRec: with record != "" the child writes the names of all hook points it passes to that file.
+func (q *c08Seq) crashOpRec(point string, nth int, kind string, b bpv7.Bundle, record string) {
 	_ = q.store.Close()
 	desc := ""
 	switch kind {
@@ -655,7 +660,8 @@ func (q *c08Seq) crashOp(point string, nth int, kind string, b bpv7.Bundle) {
 	}
 	spec := fmt.Sprintf("%d,%d,%d,%d,%s,%s,%d,%d", f.src, f.ts, f.seq, f.lifetime, hex.EncodeToString(f.base), c08FragStr(b), c08PayLen(b), variant)
 	cmd.Env = append(os.Environ(), "VERIF_C08_CHILD_DIR="+q.dir, "VERIF_C08_CHILD_OP="+kind,
-		"VERIF_C08_CHILD_BUNDLE="+spec, fmt.Sprintf("VERIF_CRASH=%s:%d", point, nth), "VERIF_OUT=")
+		"VERIF_C08_CHILD_BUNDLE="+spec, fmt.Sprintf("VERIF_CRASH=%s:%d", point, nth), "VERIF_OUT=",
+		"VERIF_C08_CHILD_RECORD="+record)
 	out, err := cmd.CombinedOutput()
 	code := 0
 	if ee, ok := err.(*exec.ExitError); ok {
@@ -711,6 +717,10 @@ func TestVerifC08Child(t *testing.T) {
 		fmt.Println("child: open", err)
 		os.Exit(4)
 	}
+	var hits []string
+	if os.Getenv("VERIF_C08_CHILD_RECORD") != "" {
+		c08SetSched(func(name string) { hits = append(hits, name) })
+	}
 	switch os.Getenv("VERIF_C08_CHILD_OP") {
 	case "push":
 		err = s.Push(b)
@@ -724,6 +734,9 @@ func TestVerifC08Child(t *testing.T) {
 	if err != nil {
 		fmt.Println("child: op", err)
 		os.Exit(5)
+	}
+	if rec := os.Getenv("VERIF_C08_CHILD_RECORD"); rec != "" {
+		_ = os.WriteFile(rec, []byte(strings.Join(hits, "\n")), 0600)
 	}
 	if err := s.Close(); err != nil {
 		fmt.Println("child: close", err)
@@ -762,6 +775,98 @@ func c08RunCrash(scratch, sid string, seed uint64, variants []int) []string {
 	}
 	q.doSweep()
 	q.doDelete(o2)
+	_ = q.store.Close()
+	return q.out
+}
+
+// c08RunSweepCrash kills DeleteExpired at EVERY hook point it passes while sweeping several expired
+// records. The bundles stay valid (readable): only the records' Expires is moved into the past by
+// Update, as the routing layer may do. Control records (one not expired, pending) must survive.
+// The points are taken from a recorded dry run of the same sweep, not from a list.
+func c08RunSweepCrash(scratch, sid string, seed uint64, maxKills int) []string {
+	q := c08NewSeq(scratch, sid, seed)
+	ctl := q.newFam(false, 10+q.r.intn(10))
+	q.doPush(ctl.bundle(nil))
+	q.doUpdate(ctl, true, q.futureExp(), q.randProps())
+	ctl2 := q.newFam(false, 12+q.r.intn(10))
+	for _, fr := range c08Grid(ctl2, 2) {
+		q.doPush(ctl2.bundle(fr))
+	}
+	pastExp := func() int64 { return q.nowMs - 10800000 - int64(q.r.intn(100000)) }
+	// two or three expired records: a whole bundle, a fragment record with 2 parts, maybe a third
+	third := q.r.intn(2) == 0
+	setup := func() []*c08Fam {
+		a := q.newFam(false, 10+q.r.intn(10))
+		q.doPush(a.bundle(nil))
+		b := q.newFam(false, 14+q.r.intn(10))
+		for _, fr := range c08Grid(b, 2) {
+			q.doPush(b.bundle(fr))
+		}
+		fams := []*c08Fam{a, b}
+		if third {
+			c := q.newFam(false, 9+q.r.intn(6))
+			q.doPush(c.bundle(c08Grid(c, 3)[1]))
+			fams = append(fams, c)
+		}
+		for _, f := range fams {
+			q.doUpdate(f, true, pastExp(), q.randProps())
+		}
+		return fams
+	}
+	after := func(fams []*c08Fam) {
+		// every id: lookup, re-push (must be stored and readable again or still), then finish the sweep
+		for _, f := range fams {
+			q.doQuery(f)
+		}
+		q.doQuery(ctl)
+		for _, f := range fams {
+			q.doPush(f.bundle(c08Grid(f, 2)[0]))
+			q.doPush(f.bundle(nil))
+		}
+		if q.r.intn(3) == 0 {
+			q.doReopen()
+		}
+		q.doSweep()
+		for _, f := range fams {
+			q.doDelete(f)
+		}
+	}
+	// dry run: which hook points does a sweep over such records pass?
+	fams := setup()
+	rec := filepath.Join(scratch, "c08-"+sid+"-points.txt")
+	q.crashOpRec("none", 1, "sweep", fams[0].bundle(nil), rec)
+	after(fams)
+	data, _ := os.ReadFile(rec)
+	var hits []string
+	if len(data) > 0 {
+		hits = strings.Split(string(data), "\n")
+	}
+	q.emit("# sweep dry run passed %d hook points: %s", len(hits), strings.Join(hits, " "))
+	// one kill per observed hit (the n-th hit of its name); when limited, spread over the whole sweep
+	type kill struct {
+		name string
+		nth  int
+	}
+	var kills []kill
+	count := map[string]int{}
+	for _, h := range hits {
+		count[h]++
+		kills = append(kills, kill{h, count[h]})
+	}
+	if len(kills) == 0 {
+		// no hook point was observed (a tree without hooks in the sweep path): still try the known names
+		kills = []kill{{"delete:before-remove", 1}, {"delete:file-removed", 1}}
+	}
+	step := 1
+	if maxKills > 0 && len(kills) > maxKills {
+		step = (len(kills) + maxKills - 1) / maxKills
+	}
+	for i := int(seed) % step; i < len(kills); i += step {
+		fams := setup()
+		q.crashOp(kills[i].name, kills[i].nth, "sweep", fams[0].bundle(nil))
+		after(fams)
+	}
+	q.doQuery(ctl2)
 	_ = q.store.Close()
 	return q.out
 }
@@ -1061,6 +1166,14 @@ func TestVerifC08(t *testing.T) {
 			vs = vs[:4] // 14 scenarios
 		}
 		add(sid, func() []string { return c08RunCrash(scratch, sid, seed, vs) })
+	}
+	nSweep, maxKills := 1, 0
+	if thorough {
+		nSweep = 8
+	}
+	for i := 0; i < nSweep; i++ {
+		sid := fmt.Sprintf("w%d", i)
+		add(sid, func() []string { return c08RunSweepCrash(scratch, sid, seed, maxKills) })
 	}
 	results := make([][]string, len(jobs))
 	var wg sync.WaitGroup
